@@ -71,7 +71,9 @@ pub fn install_hook() {
                 .location()
                 .map(|l| {
                     let f = l.file();
-                    let f = f.strip_prefix("/repo/").unwrap_or(f);
+                    // the library under test: crate-relative path wherever the tree lives (/repo or a scratch worktree)
+                    let stripped = strip_location(f);
+                    let f = stripped.as_str();
                     // registry paths: keep crate-relative tail only
                     let f = match f.find("/registry/src/") {
                         Some(p) => {
